@@ -285,26 +285,49 @@ def check_tr(chk, F):
     chk.obligation(rid, ident == {"internal_key", "tree"}, "fields",
                    "Tr has fields %s; identity fields expected {internal_key, tree} + cache spend_info" % sorted(allf),
                    F.adts[TR]["span"])
-    for trait, name in (("std::cmp::PartialEq", "eq"), ("std::cmp::Ord", "cmp"), ("std::hash::Hash", "hash"),
-                        ("std::clone::Clone", "clone")):
-        try:
-            p = impl_method(F, TR, trait, name)
-        except KeyError as e:
-            chk.fail(rid, name, "missing anchor %s" % e, kind="unanalysable")
-            continue
-        chk.saw(p)
-        body = F.thir(p)["body"]
-        used = set(n["name"] for n in symx.find_nodes(body, lambda n: n.get("k") == "field"
-                                                       and n["name"] in allf))
-        # fields bound by a destructuring pattern count as used
-        for n in symx.find_nodes(body, lambda n: n.get("k") in ("leaf",) and n.get("adt") == TR):
-            for s in n["subs"]:
-                if s["pat"]["k"] != "wild":
-                    used.add(s["name"])
-        want = ident if name != "clone" else ident
-        chk.obligation(rid, ident <= used and (name == "clone" or "spend_info" not in used), name,
-                       "Tr::%s uses fields %s; must use exactly the identity fields %s" % (name, sorted(used), sorted(ident)),
-                       F.fns[p]["span"])
+    # decided by evaluating the impls on model values that differ in exactly one field
+    from ..interp import some, NONE
+    TAPTREE = "descriptor::tr::TapTree"
+
+    def tree(names):
+        return some(Adt(TAPTREE, "TapTree", {"depths_leaves": PyVec([(1, n) for n in names])}))
+
+    def mk(key="K", tr=("l0", "l1"), cache="cache0"):
+        return Adt(TR, "Tr", {"internal_key": key, "tree": tree(tr) if tr is not None else NONE, "spend_info": Term(cache)})
+    base = mk()
+    variants = {"internal_key": mk(key="L"), "tree": mk(tr=("l0", "l2")), "tree-none": mk(tr=None), "spend_info": mk(cache="cache1")}
+    try:
+        eqp = impl_method(F, TR, "std::cmp::PartialEq", "eq")
+        cmpp = impl_method(F, TR, "std::cmp::Ord", "cmp")
+        hashp = impl_method(F, TR, "std::hash::Hash", "hash")
+        clonep = impl_method(F, TR, "std::clone::Clone", "clone")
+    except KeyError as e:
+        chk.fail(rid, "anchors", "missing anchor %s" % e, kind="unanalysable")
+        return
+    chk.saw(eqp, cmpp, hashp, clonep)
+    m = Machine(F, strict=True)
+    from ..interp import ok as _ok
+    m.hooks["std::sync::Mutex::<T>::lock"] = lambda m_, a, c: _ok(NONE)      # the cache: empty (its content is not identity)
+    m.hooks["std::sync::Mutex::<T>::new"] = lambda m_, a, c: Term("fresh-mutex", a[0])
+    try:
+        h0 = run_hash(m, hashp, base)
+        for fld, v in variants.items():
+            differs = fld != "spend_info"
+            e = m.call_path(eqp, [base, v])
+            chk.obligation(rid, bool(e) == (not differs), "eq|" + fld, "Tr::eq of two values differing only in %s is %r; identity is "
+                           "exactly {internal_key, tree}" % (fld, e), F.fns[eqp]["span"])
+            c1, c2 = m.call_path(cmpp, [base, v]).variant, m.call_path(cmpp, [v, base]).variant
+            good = (c1 == "Equal" and c2 == "Equal") if not differs else ({c1, c2} == {"Less", "Greater"})
+            chk.obligation(rid, good, "cmp|" + fld, "Tr::cmp of two values differing only in %s gives %s / %s" % (fld, c1, c2),
+                           F.fns[cmpp]["span"])
+            h1 = run_hash(m, hashp, v)
+            chk.obligation(rid, (h1 == h0) == (not differs), "hash|" + fld, "Tr::hash of two values differing only in %s feeds %s "
+                           "streams" % (fld, "equal" if h1 == h0 else "different"), F.fns[hashp]["span"])
+        c = m.call_path(clonep, [base])
+        chk.obligation(rid, isinstance(c, Adt) and repr(c.fields["internal_key"]) == repr(base.fields["internal_key"]) and
+                       repr(c.fields["tree"]) == repr(base.fields["tree"]), "clone", "Tr::clone yields %r" % (c,), F.fns[clonep]["span"])
+    except (Unsupported, Panic) as e:
+        chk.fail(rid, "unanalysable", "unanalysable: %s" % e, kind="unanalysable")
     # writers of the identity fields
     writers = set()
     for p, b in F.bodies.items():
